@@ -213,8 +213,10 @@ CONC = Stage(
 GATEWAY = Stage(
     family="gateway",
     reset_ev="Start",
-    mc={"quick": [("Gateway.tla", "MC_Gateway.cfg", "pass"), ("Gateway.tla", "MC_Gateway_neg.cfg", "fail")],
-        "thorough": [("Gateway.tla", "MC_Gateway_t.cfg", "pass"), ("Gateway.tla", "MC_Gateway_neg.cfg", "fail")]},
+    mc={"quick": [("Gateway.tla", "MC_Gateway.cfg", "pass"), ("Gateway.tla", "MC_Gateway_neg.cfg", "fail"),
+                  ("Refine_Gateway.tla", "MC_Gateway_refine.cfg", "pass"), ("Refine_Gateway.tla", "MC_Gateway_refine_neg.cfg", "fail")],
+        "thorough": [("Gateway.tla", "MC_Gateway_t.cfg", "pass"), ("Gateway.tla", "MC_Gateway_neg.cfg", "fail"),
+                     ("Refine_Gateway.tla", "MC_Gateway_refine.cfg", "pass"), ("Refine_Gateway.tla", "MC_Gateway_refine_neg.cfg", "fail")]},
     parts={"quick": [("", 2)], "thorough": [("", 8)]},
     trace=("Trace_Gateway.tla", "Trace_Gateway.cfg"),
     nontrivial=lambda e: e.get("ev") != "Start",
